@@ -1099,7 +1099,7 @@ def stream_grid(ctx):
         except Exception as e:  # noqa: BLE001
             s.violate('Grid geometry function raised', cg, repr(e))
         for spinless in (True, False):
-            if not spinless and npts > 9 and ctx.tier != 'thorough':
+            if not spinless and npts >= 6 and ctx.tier != 'thorough':
                 continue
             if npts * (1 if spinless else 2) > 32:
                 continue
